@@ -36,6 +36,7 @@ import (
 	"math"
 	"net"
 	"os"
+	"os/exec"
 	"path/filepath"
 	"reflect"
 	"sort"
@@ -543,14 +544,21 @@ var specByName = func() map[string]*spec {
 var needsNetDialer = map[string]bool{"DialTimeout": true}
 var needsACK = map[string]bool{"MaxMessageSize": true, "MaxChunkCount": true, "ReceiveBufferSize": true, "SendBufferSize": true}
 
-func optGen(focus bool) *rapid.Generator[optT] {
+// themes raise the chance that two constructions of one program touch the same
+// sub-object of the configuration (the place where a shared default would show).
+var themes = map[string][]string{
+	"limits":      {"MaxMessageSize", "MaxChunkCount", "ReceiveBufferSize", "SendBufferSize", "DialTimeout", "Dialer", "ApplicationName", "Locales"},
+	"auth":        {"AuthAnonymous", "AuthUsername", "AuthCertificate", "AuthPrivateKey", "AuthIssuedToken", "AuthPolicyID", "SecurityFromEndpoint", "SessionName"},
+	"description": {"ApplicationName", "ApplicationURI", "ProductURI", "Locales", "Certificate", "CertificateFile", "SessionTimeout", "SecurityPolicy"},
+}
+
+func optGen(theme string) *rapid.Generator[optT] {
 	var names []string
 	for _, sp := range specs {
-		// a quarter of the constructions lean on the dialer / limit options
-		if focus && !(needsACK[sp.name] || needsNetDialer[sp.name] || sp.name == "Dialer" || sp.name == "ApplicationName" || sp.name == "Locales") {
-			continue
-		}
 		names = append(names, sp.name)
+	}
+	if theme != "" {
+		names = themes[theme]
 	}
 	return rapid.Custom(func(t *rapid.T) optT {
 		o := optT{Name: rapid.SampledFrom(names).Draw(t, "opt")}
@@ -559,7 +567,7 @@ func optGen(focus bool) *rapid.Generator[optT] {
 	})
 }
 
-var optAny, optFocus = optGen(false), optGen(true)
+var optGens = []*rapid.Generator[optT]{optGen(""), optGen(""), optGen(""), optGen("limits"), optGen("auth"), optGen("description")}
 
 // dropNilDereferences removes the options that would write through the nil part
 // of a user dialer placed earlier in the same construction.
@@ -591,10 +599,7 @@ var stepGen = rapid.Custom(func(t *rapid.T) stepT {
 	if rapid.IntRange(0, 2).Draw(t, "plain") == 0 {
 		return s // construction without options
 	}
-	g := optAny
-	if rapid.IntRange(0, 3).Draw(t, "focus") == 0 {
-		g = optFocus
-	}
+	g := optGens[rapid.IntRange(0, len(optGens)-1).Draw(t, "theme")]
 	s.Opts = dropNilDereferences(rapid.SliceOfN(g, 1, ev.Pick(6, 10)).Draw(t, "opts"))
 	return s
 })
@@ -663,7 +668,7 @@ var (
 	pristineCliPtr    *uacp.Acknowledge
 	pristineSrvPtr    *uacp.Acknowledge
 	pristineHello     *[5]uint32 // nil: the wire check is unavailable
-	dirty             atomic.Bool // an earlier case of this process failed
+	dirty             atomic.Bool // a case of this process failed: its state can no longer be trusted
 )
 
 func initPristine() {
@@ -683,17 +688,6 @@ func initPristine() {
 	if h, err := helloOfDefaultClient(); err == nil {
 		pristineHello = &h
 	}
-}
-
-// restoreGlobals puts the two exported globals back to their pristine content
-// after an earlier failing case of this process, so that the cases rapid runs
-// while shrinking are judged on their own.
-func restoreGlobals() {
-	if !dirty.Load() {
-		return
-	}
-	uacp.DefaultClientACK, uacp.DefaultServerACK = pristineCliPtr, pristineSrvPtr
-	*uacp.DefaultClientACK, *uacp.DefaultServerACK = pristineClientACK, pristineServerACK
 }
 
 // ---------------------------------------------------------------------------
@@ -810,18 +804,18 @@ func describe(s stepT) string {
 
 func runProgram(c caseT) (res result) {
 	res.optCount = map[string]int{}
-	restoreGlobals()
+	// In a process in which no case has failed yet the state at program start
+	// must be the pristine state. In a dirty process (only while rapid shrinks,
+	// see judge) the state at program start is the baseline and a failure is
+	// only a candidate that a fresh process has to confirm.
 	baseDefaults := snapDefaults()
-	baseNote := ""
-	if d := diff(pristineDefaults, baseDefaults); d != "" {
-		if !dirty.Load() {
+	baseClient, baseConfig := pristineClient, pristineConfig
+	if !dirty.Load() {
+		if d := diff(pristineDefaults, baseDefaults); d != "" {
 			res.infra = "defaults differ from process start before the program ran, although no earlier case failed: " + d
 			return
 		}
-		baseNote = " [an earlier failing case of this process left altered state behind; baseline = state at program start]"
-	}
-	baseClient, baseConfig := pristineClient, pristineConfig
-	if dirty.Load() {
+	} else {
 		if c0, err := opcua.NewClient(""); err == nil {
 			baseClient = snapParts(false, clientParts(c0, false)...)
 		}
@@ -894,24 +888,24 @@ func runProgram(c caseT) (res result) {
 
 		// (a) the defaults kept their content
 		if d := diff(baseDefaults, snapDefaults()); d != "" {
-			res.msg = fmt.Sprintf("%s the package defaults changed: %s%s", where, d, baseNote)
+			res.msg = fmt.Sprintf("%s the package defaults changed: %s", where, d)
 			return
 		}
 		// (b) every earlier client / config kept its content
 		for _, e := range ents {
 			if d := diff(e.snap, snapParts(true, e.parts...)); d != "" {
-				res.msg = fmt.Sprintf("%s the configuration built in step %d %s changed: %s%s", where, e.step, e.what, d, baseNote)
+				res.msg = fmt.Sprintf("%s the configuration built in step %d %s changed: %s", where, e.step, e.what, d)
 				return
 			}
 		}
 		// (c) a construction without options has the pristine content
 		if len(st.Opts) == 0 {
 			if cerr != nil || plainParts == nil {
-				res.msg = fmt.Sprintf("%s: a construction without options failed: %v%s", where, cerr, baseNote)
+				res.msg = fmt.Sprintf("%s: a construction without options failed: %v", where, cerr)
 				return
 			}
 			if d := diff(plainBase, snapParts(false, plainParts...)); d != "" {
-				res.msg = fmt.Sprintf("%s a construction without options differs from the pristine one: %s%s", where, d, baseNote)
+				res.msg = fmt.Sprintf("%s a construction without options differs from the pristine one: %s", where, d)
 				return
 			}
 			if optSeen {
@@ -925,13 +919,11 @@ func runProgram(c caseT) (res result) {
 		}
 	}
 
-	if c.Wire && pristineHello != nil {
+	if c.Wire && pristineHello != nil && !dirty.Load() {
 		h, err := helloOfDefaultClient()
 		switch {
 		case err != nil:
 			res.classes = append(res.classes, "wire-check-skipped(infrastructure)")
-		case dirty.Load():
-			res.classes = append(res.classes, "wire-check-skipped(dirty process)")
 		case h != *pristineHello:
 			res.msg = fmt.Sprintf("after the program a client without options sent Hello{Version,ReceiveBufSize,SendBufSize,MaxMessageSize,MaxChunkCount}=%v, the pristine default client sent %v", h, *pristineHello)
 			return
@@ -940,7 +932,7 @@ func runProgram(c caseT) (res result) {
 		}
 		// dialling must not have disturbed anything either
 		if d := diff(baseDefaults, snapDefaults()); d != "" {
-			res.msg = fmt.Sprintf("after a default client dialled, the package defaults changed: %s%s", d, baseNote)
+			res.msg = fmt.Sprintf("after a default client dialled, the package defaults changed: %s", d)
 			return
 		}
 	}
@@ -970,6 +962,83 @@ func runProgram(c caseT) (res result) {
 }
 
 // ---------------------------------------------------------------------------
+// judging a case
+
+const childMarker = "C23-CHILD-RESULT "
+
+type childResult struct {
+	Msg   string `json:"msg"`
+	Infra string `json:"infra"`
+}
+
+// judge runs the program in this process. After the first failure of the
+// process (i.e. while rapid shrinks) the package state may be altered in ways
+// that cannot be undone from outside (a leak through an unexported variable):
+// then the exported globals are put back, the program is judged against the
+// state at its own start, and a failure only counts if a fresh child process,
+// started exactly like ./check --replay, fails on the same program. So every
+// replay file written holds a program that fails from a clean start; an
+// in-process pass that a clean process would not confirm can only make the
+// shrunk program less small, never wrong.
+func judge(c caseT) result {
+	if !dirty.Load() {
+		return runProgram(c)
+	}
+	uacp.DefaultClientACK, uacp.DefaultServerACK = pristineCliPtr, pristineSrvPtr
+	*uacp.DefaultClientACK, *uacp.DefaultServerACK = pristineClientACK, pristineServerACK
+	res := runProgram(c)
+	if res.infra != "" || res.msg == "" {
+		return res
+	}
+	return runInChild(c)
+}
+
+func runInChild(c caseT) (res result) {
+	res.optCount = map[string]int{}
+	exe, err := os.Executable()
+	if err != nil {
+		res.infra = "child: " + err.Error()
+		return
+	}
+	fileMu.Lock()
+	dir := fileDir
+	fileMu.Unlock()
+	b, _ := json.Marshal(c)
+	rp, _ := json.Marshal(ev.Replay{Property: "C23", Test: "TestIsolation", Case: b})
+	path := filepath.Join(dir, "child-case.json")
+	if err := os.WriteFile(path, rp, 0o600); err != nil {
+		res.infra = "child: " + err.Error()
+		return
+	}
+	ctx, cancel := context.WithTimeout(context.Background(), 2*time.Minute)
+	defer cancel()
+	cmd := exec.CommandContext(ctx, exe, "-test.run", "^TestReplay$", "-test.count=1", "-test.v")
+	for _, e := range os.Environ() {
+		// the child is a judge only: no evidence parts, replay files or journals of its own
+		if strings.HasPrefix(e, "VERIF_PART_DIR=") || strings.HasPrefix(e, "VERIF_REPLAY_DIR=") || strings.HasPrefix(e, "VERIF_JOURNAL_DIR=") || strings.HasPrefix(e, "VERIF_REPLAY=") {
+			continue
+		}
+		cmd.Env = append(cmd.Env, e)
+	}
+	cmd.Env = append(cmd.Env, "VERIF_REPLAY="+path, "VERIF_REPLAY_DIR="+dir)
+	out, _ := cmd.CombinedOutput()
+	for _, line := range strings.Split(string(out), "\n") {
+		if i := strings.Index(line, childMarker); i >= 0 {
+			var cr childResult
+			if err := json.Unmarshal([]byte(line[i+len(childMarker):]), &cr); err != nil {
+				res.infra = "child: bad result line: " + err.Error()
+				return
+			}
+			res.msg, res.infra = cr.Msg, cr.Infra
+			res.classes = []string{"judged-in-child-process(shrinking)"}
+			return
+		}
+	}
+	res.infra = "child: no result line in output: " + clip(string(out))
+	return
+}
+
+// ---------------------------------------------------------------------------
 
 func TestIsolation(t *testing.T) {
 	useTempDir(t)
@@ -982,7 +1051,7 @@ func TestIsolation(t *testing.T) {
 	}
 	rapid.Check(t, func(rt *rapid.T) {
 		c := genCase(rt)
-		res := runProgram(c)
+		res := judge(c)
 		if res.infra != "" {
 			rt.Fatalf("harness problem (not a verdict on C23): %s", res.infra)
 		}
@@ -1075,6 +1144,8 @@ func TestReplay(t *testing.T) {
 	}
 	fmt.Println("REPLAYED structured")
 	res := runProgram(c)
+	cr, _ := json.Marshal(childResult{Msg: res.msg, Infra: res.infra})
+	fmt.Println(childMarker + string(cr))
 	if res.infra != "" {
 		t.Fatalf("harness problem (not a verdict on C23): %s", res.infra)
 	}
